@@ -292,7 +292,7 @@ type stats struct {
 	appends, appendsIdle, appendsBusy         int
 	appendsHeld, rotations, appendsAfterRot   int
 	heldRemoves, heldRotations, syncs, reads  int
-	renameRotations                           int
+	renameRotations, plainRecreated           int
 	bothPending, coalesced, droppedEv         int
 	forcedSync, padded, clamped, eof, batches int
 	bytes, maxBacklog                         int
@@ -773,7 +773,7 @@ func (r *run) appendBytes(n int) error {
 	return nil
 }
 
-func (r *run) remove(settleUs int) error {
+func (r *run) remove(settleUs int, recreateAtOnce bool) error {
 	if !r.exists {
 		return nil
 	}
@@ -842,6 +842,18 @@ func (r *run) remove(settleUs int) error {
 	r.enqueue(evD)
 	if held {
 		r.st.heldRemoves++
+	}
+	if recreateAtOnce && !r.h.Reopen && !r.h.Poll {
+		// log rotation: another file appears at the path at once. It is not
+		// the followed file: plain follow ends all the same and delivers none
+		// of it. (Polling cannot tell such a rotation from a truncation and is
+		// not asked to.)
+		if err := os.WriteFile(r.path, []byte("a different file at the same path\n"), 0o644); err != nil {
+			return errInconclusive{"harness could not re-create: " + err.Error()}
+		}
+		r.st.plainRecreated++
+		r.enqueue(evC)
+		r.enqueue(evW)
 	}
 	if r.h.Reopen {
 		return nil
@@ -1209,7 +1221,7 @@ func runHist(h Hist, st *stats) (err error) {
 		case kRelease:
 			r.release()
 		case kRemove:
-			e = r.remove(op.N)
+			e = r.remove(op.N, op.M == 1)
 		case kRecreate:
 			e = r.recreate(op.N, op.M == 1)
 		case kDeliver:
@@ -1310,6 +1322,7 @@ func check(c Case) error {
 			l(s.heldRemoves > 0, "remove-while-consumer-held")
 			l(s.heldRotations > 0, "rotation-while-consumer-held")
 			l(s.renameRotations > 0, "re-created-by-rename(create-only)")
+			l(s.plainRecreated > 0, "plain-follow:path-re-created-right-after-removal")
 			l(s.bothPending > 0, "write+delete-both-pending-at-select")
 			l(s.eof > 0, "plain-eof-after-remove")
 			l(s.forcedSync > 0, "forced-sync(poll proviso)")
@@ -1463,7 +1476,11 @@ func genHist(t *rapid.T, layer string) Hist {
 			if layer == "inject" && rapid.Bool().Draw(t, "dl") {
 				add(Op{K: kDeliver, N: rapid.IntRange(1, 4).Draw(t, "n")})
 			}
-			add(Op{K: kRemove, N: pick(t, "settle", [2]int{0, 50}, [2]int{200, 2000})})
+			rm := Op{K: kRemove, N: pick(t, "settle", [2]int{0, 50}, [2]int{200, 2000})}
+			if !h.Reopen && !h.Poll && rapid.IntRange(0, 2).Draw(t, "recreateAtOnce") == 0 {
+				rm.M = 1 // something re-creates the path right after the removal: plain follow still ends
+			}
+			add(rm)
 			exists, held = false, false
 			if !h.Reopen {
 				over = true
@@ -1485,7 +1502,11 @@ func genHist(t *rapid.T, layer string) Hist {
 				add(Op{K: kDeliver, N: 8})
 			}
 			add(Op{K: kPause, N: pick(t, "reach-gate", [2]int{100, 400}, [2]int{1000, 4000})})
-			add(Op{K: kRemove, N: pick(t, "settle", [2]int{0, 50}, [2]int{200, 2000})})
+			rm := Op{K: kRemove, N: pick(t, "settle", [2]int{0, 50}, [2]int{200, 2000})}
+			if !h.Reopen && !h.Poll && rapid.IntRange(0, 2).Draw(t, "recreateAtOnce") == 0 {
+				rm.M = 1
+			}
+			add(rm)
 			exists, held = false, false
 			if !h.Reopen {
 				over = true
